@@ -24,6 +24,7 @@ typedef struct {
   char     hosts_content[2048];
   char     hostaliases_content[512];
   int      use_server_state_cb;
+  int      local_bind; /* 1: ares_set_local_ip4/ip6 + ares_set_local_dev */
 } app_cfg_t;
 
 static app_cfg_t       app_cfg;
@@ -118,6 +119,7 @@ static int       app_cb_depth;
 static int       app_in_cancel, app_in_destroy, app_in_start, app_in_process;
 static int       app_cancel_in_cb_used, app_start_in_cb_used;
 static int       app_max_tokens = 48;
+static long      app_total_cb; /* callbacks delivered in this case */
 
 /* scripted actions */
 enum { AA_START = 1, AA_CANCEL, AA_SET_SERVERS, AA_SET_SORTLIST, AA_REINIT, AA_READONLY, AA_DUP, AA_JUMP, AA_LOCALADDR };
@@ -326,6 +328,7 @@ static void app_reentrant(app_tok_t *t)
 static void app_cb_common(app_tok_t *t, int status, int timeouts)
 {
   t->cb_count++;
+  app_total_cb++;
   t->cb_in_cancel  = app_in_cancel;
   t->cb_in_destroy = app_in_destroy;
   t->cb_in_start   = app_in_start;
@@ -740,6 +743,12 @@ static int app_channel_init(void)
   if (app_cfg.use_server_state_cb) {
     ares_set_server_state_callback(app_channel, app_server_state_cb, NULL);
   }
+  if (app_cfg.local_bind) {
+    static const unsigned char ip6[16] = { 0xfd, 0, 0, 0, 0, 0, 0, 0, 0, 0, 0, 0, 0, 0, 0, 0x99 };
+    ares_set_local_ip4(app_channel, 0x0a090909);
+    ares_set_local_ip6(app_channel, ip6);
+    ares_set_local_dev(app_channel, "eth0");
+  }
   if (sim_cfg.use_sock_cfg_cb) {
     ares_set_socket_configure_callback(app_channel, app_sock_cfg_cb, NULL);
   }
@@ -1085,7 +1094,9 @@ static int         app_steps;
 static int         app_stuck;
 
 static void mon_stuck(void);
+static void mon_timer_check_fwd(void);
 static void mon_progress_check(int64_t deadline_before, int had_fd_events);
+static void mon_progress_blackbox(int64_t deadline_before, int nev, long dtx, long dcb, long dcalls);
 
 static void app_run(void)
 {
@@ -1109,6 +1120,7 @@ static void app_run(void)
       sim_note("early_destroy");
       break;
     }
+    mon_timer_check_fwd();
     nq = (int)ares_queue_active_queries(app_channel);
     if (nq > 0) {
       tvp = ares_timeout(app_channel, NULL, &tv);
@@ -1174,12 +1186,14 @@ static void app_run(void)
     {
       int64_t deadline_before = t_lib;
       int     nev;
+      long    tx0 = sim_ntx, cb0 = app_total_cb, calls0 = sim_callcount_all;
       if (app_sched.timeouts_first_pm && (int)vh_below(&sim_rng, 1000) < app_sched.timeouts_first_pm) {
         app_process(1, 0);
         sim_note("timeouts_before_reads");
       }
       nev = app_process(0, sim_cfg.one_fd_per_call ? 1 : 1024);
       mon_progress_check(deadline_before, nev);
+      mon_progress_blackbox(deadline_before, nev, sim_ntx - tx0, app_total_cb - cb0, sim_callcount_all - calls0);
     }
   }
 }
